@@ -166,6 +166,8 @@ def standard_verdicts(ctx, agg, name, oracle_keys=()):
     if agg.f1:
         # the known shutdown deadlock; reported under C08, tolerated (and counted) elsewhere
         ctx.coverage["runs_ending_in_known_shutdown_hang_F1"] = agg.f1
+    if agg.divs and not ctx.violations:
+        search_witness(ctx, agg.divs)
     for r in agg.divs[:3]:
         # a divergence whose model line carries an explicit property failure marker is a witness
         d = r["div"]
@@ -300,3 +302,74 @@ def lib_matrix(ctx, rnd):
     ctx.coverage["library_rng_matrix"] = {"runs": lib_agg.runs, "rollbacks_checked": lib_agg.tot.get("s_rb_checked", 0),
                                           "outcomes": lib_agg.outcomes}
     return pairs
+
+
+def run_seqjudge(ctx, cfg, tag):
+    """One scheduled run judged ONLY by the sequential specification (independent of the LP-level re-execution model):
+    committed stream of every LP and, for predicate-terminated runs, the final states, against the Lean sequential executor."""
+    ops, cf = ctx.path("jo_%s" % tag), ctx.path("jc_%s" % tag)
+    args = [ctx.path("hrun"), "dist", ops, cf] + ["%s=%s" % kv for kv in sorted(cfg.items())]
+    rc, out = vlib.run(args, timeout=300)
+    o_f, c_f = ops + ".0", cf + ".0"
+    res = {"cfg": cfg, "rc": rc, "div": None, "oracle": {}}
+    for l in out.splitlines():
+        if "{" in l and l.strip().endswith("}"):
+            try:
+                st = json.loads(l[l.index("{"):])
+                res["oracle"] = {k: st.get(k, 0) for k in ("s_rb_mismatch", "s_below_gvt", "s_vote_false_pred", "s_gvt_decrease")}
+                res["outcome"] = st.get("outcome")
+            except ValueError:
+                pass
+    if not (os.path.exists(o_f) and os.path.exists(c_f)):
+        return res
+    head = "model %d %d %d %d %d %d %d %d %d %d %d %d %d" % (cfg["mseed"], cfg["lps"], cfg["types"], cfg["fan"], cfg["thr"], cfg["spread"],
+                                                         cfg["rng"], cfg["mem"], cfg["t0"], cfg["threads"], cfg["ckpt"], cfg.get("tterm", 0),
+                                                         cfg.get("skew", 0))
+    o = open(o_f, errors="replace").read().splitlines()
+    c = open(c_f, errors="replace").read().splitlines()
+    n = min(len(o), len(c))
+    mo, mc = ops + ".m", cf + ".m"
+    open(mo, "w").write("\n".join([head] + o[:n]) + "\n")
+    lf = mc + ".lean"
+    ctx.driver("seq", mo, lf)
+    l = open(lf, errors="replace").read().splitlines()[1:]
+    for i in range(min(n, len(l))):
+        if c[i] != l[i]:
+            res["div"] = {"line": i + 1, "op": o[i], "impl": c[i], "sequential": l[i]}
+            break
+    for f in (o_f, c_f, mo, lf):
+        try:
+            os.remove(f)
+        except OSError:
+            pass
+    return res
+
+
+def search_witness(ctx, divs, per_cfg=24, max_cfgs=3):
+    """The correspondence broke: search the implementation for a concrete input on which the PROPERTY fails, starting from the
+    diverging configurations (same model instance, fresh schedules), judged by the sequential specification and the
+    implementation-side oracles only. Returns the number of witnesses recorded."""
+    import concurrent.futures
+    import random
+    rnd = random.Random(ctx.seed + 99)
+    jobs = []
+    for k, r in enumerate(divs[:max_cfgs]):
+        if r.get("mode") == "serial":
+            continue
+        for j in range(per_cfg):
+            c = dict(r["cfg"])
+            c.pop("ranks", None)
+            c.update({"seed": rnd.randrange(1, 1 << 30), "burst": rnd.choice([0, 20, 60, 200, 600])})
+            jobs.append(("w%d_%d" % (k, j), c))
+    found = 0
+    with concurrent.futures.ThreadPoolExecutor(max_workers=12) as ex:
+        for res in ex.map(lambda j: run_seqjudge(ctx, j[1], j[0]), jobs):
+            bad = {k: v for k, v in res["oracle"].items() if v}
+            if res["div"] and found < 3:
+                ctx.violation("outcome-differs-from-sequential-execution", {"cfg": res["cfg"], "first_difference": res["div"]}, True)
+                found += 1
+            elif bad and found < 3:
+                ctx.violation("implementation-oracle", {"cfg": res["cfg"], "oracle": bad}, True)
+                found += 1
+    ctx.coverage["witness_search"] = {"runs": len(jobs), "witnesses": found}
+    return found
